@@ -122,6 +122,20 @@ def explore(run, scale=1):
                 rep = rec.get("wf" + tag, "?")
                 res.append((opt, "wf", rep, rec["src"].count("if (") + rec["src"].count("while (") + rec["src"].count("for (")))
         judge_source(run, rec["src"], res, "generated", dict(seed=rec["seed"]))
+        # structural route (Props/C14Opt.lean): the five Boolean conditions imply WF (wf_of_checks) and survive optimisation
+        # (C14_opt_preserves_checks); evaluated on the real IR of both settings
+        for tag in ("0", "1"):
+            wc = rec.get("wfchecks" + tag)
+            if wc is None: continue
+            allok = all(p.endswith(": ok") for p in wc.split(" | "))
+            run.count("wfchecks%s:%s" % (tag, "hold" if allok else "outside"))
+            wf_ok = all(p.endswith(": ok") for p in rec.get("wf" + tag, "").split(" | "))
+            if allok and not wf_ok:
+                run.mismatch("theorem-instance:wf_of_checks", dict(source=rec["src"], seed=rec["seed"], optimize=tag == "1"), wc[:200], rec.get("wf" + tag, "")[:200])
+        w0, w1 = rec.get("wfchecks0"), rec.get("wfchecks1")
+        if w0 and w1 and all(p.endswith(": ok") for p in w0.split(" | ")) and not all(p.endswith(": ok") for p in w1.split(" | ")):
+            # the real optimiser turned checked code into unchecked code although the model optimiser provably cannot
+            run.mismatch("theorem-instance:C14_opt_preserves_checks", dict(source=rec["src"], seed=rec["seed"]), w0[:200], w1[:200])
         # route 2: structural correspondence model lowering vs implementation (unoptimised)
         if rec.get("accept0") and "model_error" not in rec:
             run.count("struct:compared")
